@@ -64,7 +64,7 @@ func main(a uint16, b uint16) uint16 {
 // testsuiteTwoParty lists shipped two-argument test programs (cheap ones).
 func testsuiteTwoParty() []string {
 	var out []string
-	for _, pat := range []string{vrt.Repo+"/testsuite/lang/*.mpcl", vrt.Repo+"/testsuite/math/*.mpcl", vrt.Repo+"/testsuite/bytes/*.mpcl"} {
+	for _, pat := range []string{vrt.Repo + "/testsuite/lang/*.mpcl", vrt.Repo + "/testsuite/math/*.mpcl", vrt.Repo + "/testsuite/bytes/*.mpcl"} {
 		m, _ := filepath.Glob(pat)
 		for _, f := range m {
 			b, err := os.ReadFile(f)
